@@ -154,6 +154,56 @@ func GenAttrs(r *rand.Rand, raw bool) Attrs {
 	return a
 }
 
+// AttrsFor draws a request that is likely to match the rule: every field takes, most of the time, a value derived from
+// one of the rule's entries (a positive entry as is, a glob's prefix plus a tail, a "*/sub" closure, a listed service
+// account) — so that whole rules match often and the interesting interactions between fields are reached.
+func AttrsFor(r *rand.Rand, rule proxyv1alpha1.DispatchPolicyRule, raw bool) Attrs {
+	a := GenAttrs(r, raw)
+	from := func(l []string, def string) string {
+		if len(l) == 0 || r.Intn(5) == 0 {
+			return def
+		}
+		e := l[r.Intn(len(l))]
+		if e == "*" {
+			return def
+		}
+		if len(e) > 0 && e[0] == '-' {
+			if r.Intn(2) == 0 {
+				return e[1:] // the excluded value itself
+			}
+			return def
+		}
+		if n := len(e); n > 0 && e[n-1] == '*' && r.Intn(2) == 0 {
+			return e[:n-1] + rig.Pick(r, []string{"", "z", "/y"})
+		}
+		return e
+	}
+	a.Verb = from(rule.Verbs, a.Verb)
+	a.APIGroup = from(rule.APIGroups, a.APIGroup)
+	a.Name = from(rule.ResourceNames, a.Name)
+	a.User = from(rule.Users, a.User)
+	if len(rule.ServiceAccounts) > 0 && r.Intn(3) == 0 {
+		sa := rule.ServiceAccounts[r.Intn(len(rule.ServiceAccounts))]
+		a.User = proxyv1alpha1.MakeServiceAccountUsername(sa.Namespace, sa.Name)
+	}
+	if g := from(rule.UserGroups, ""); g != "" || r.Intn(2) == 0 {
+		a.Groups = append(a.Groups, g)
+	}
+	a.Path = from(rule.NonResourceURLs, a.Path)
+	res := from(rule.Resources, a.Resource)
+	a.Resource, a.Subresource = res, ""
+	for i := 0; i < len(res); i++ {
+		if res[i] == '/' {
+			a.Resource, a.Subresource = res[:i], res[i+1:]
+			if a.Resource == "*" {
+				a.Resource = rig.Pick(r, []string{"pods", "a"})
+			}
+			break
+		}
+	}
+	return a
+}
+
 func (a Attrs) Record() authorizer.Attributes {
 	return authorizer.AttributesRecord{
 		User:            &user.DefaultInfo{Name: a.User, Groups: a.Groups},
